@@ -151,6 +151,39 @@ def escape_task(t):
     return dict(n=n, distinct=n, violations=viols, sample=None)
 
 
+def longname_task(t):
+    """names and one-line bodies at the size limit of a quoted string (1024 octets), delivered whole, byte-wise and with a boundary in
+    the last octets of the line"""
+    lo, hi = t
+    viols = []
+    n = 0
+    for k in range(lo, hi):
+        nm = "n" * k
+        line_len = k + 2 + len(" ACTIVE") + 2
+        segs = [None, ("cap", 1), ("cap", 7), ("cap", 1039), ("cap", 1460)] + [("cuts", [line_len - d]) for d in range(1, 12)]
+        for seg in segs:
+            srv = refms.RefServer(store={nm: b"keep;\r\n", "b": b"keep;\r\n"}, active=nm)
+            s = wire.open_session(srv)
+            s.cur_socket().set_seg(seg)
+            o = s.call("listscripts")
+            n += 1
+            if not (o.kind == "ret" and isinstance(o.value, tuple) and o.value[0] == nm and list(o.value[1] or []) == ["b"]):
+                viols.append({"property": "C17", "engine": "wire", "signature": ["C17", "listscripts", "long-quoted-name", "wrong-value" if o.kind == "ret" else (o.exc_type or o.kind)],
+                              "what": "a %d-octet quoted active name delivered %r read back as %s" % (k, seg, o.brief()[-100:]), "case": {"kind": "longname", "k": k},
+                              "witness": "listscripts with a %d-octet name, delivery %r" % (k, seg), "observed": o.brief()[-100:]})
+            body = b"#" + b"b" * (k - 1)
+            srv = refms.RefServer(ch=refms.FixedChoices({"getscript-quoted": 1}), store={"s": body}, active=None)
+            s = wire.open_session(srv)
+            s.cur_socket().set_seg(seg)
+            o = s.call("getscript", "s")
+            n += 1
+            if not (o.kind == "ret" and isinstance(o.value, str) and norm_lines(o.value) == norm_lines(body)):
+                viols.append({"property": "C17", "engine": "wire", "signature": ["C17", "getscript", "long-quoted-body", "wrong-value" if o.kind == "ret" else (o.exc_type or o.kind)],
+                              "what": "a %d-octet one-line body sent quoted, delivered %r, read back as %s" % (k, seg, o.brief()[-100:]), "case": {"kind": "longname", "k": k},
+                              "witness": "getscript of a %d-octet quoted body, delivery %r" % (k, seg), "observed": o.brief()[-100:]})
+    return dict(n=n, distinct=n, violations=viols, sample=None)
+
+
 def many_task(t):
     """listings of N names (short lines, replies far longer than one read): every name must come back, whatever N"""
     N, lit_every = t
@@ -189,7 +222,8 @@ def run(tier, seed):
     r4 = pool.run_tasks("checks.c17:escape_task", [(lo, min(top + 1, lo + 8)) for lo in range(1, top + 1, 8)])
     sizes = [2 ** k for k in range(4, 11 if tier == "quick" else 14)] + [300, 400, 1000]
     r5 = pool.run_tasks("checks.c17:many_task", [(N, le) for N in sizes for le in (0, 3)])
-    res = r1 + r2 + r3 + r4 + r5
+    r6 = pool.run_tasks("checks.c17:longname_task", [(k, k + 2) for k in range(1000 if tier == "quick" else 900, 1025, 2)])
+    res = r1 + r2 + r3 + r4 + r5 + r6
     n = sum(r["n"] for r in res)
     viols = []
     for r in res:
@@ -204,6 +238,8 @@ def run(tier, seed):
 
 def replay(payload):
     c = payload["case"]
+    if c["kind"] == "longname":
+        return [v for v in longname_task((c["k"], c["k"] + 1))["violations"] if v["signature"] == payload["signature"]]
     if c["kind"] == "many":
         return many_task((c["N"], c["lit_every"]))["violations"]
     if c["kind"] == "escapes":
